@@ -1441,7 +1441,8 @@ class Interp:
         if p == "transpose":
             return np.transpose(ins[0], P_["permutation"])
         if p == "rev":
-            return np.flip(ins[0], axis=tuple(P_["dimensions"])).copy()
+            r_ = np.flip(ins[0], axis=tuple(P_["dimensions"]))
+            return r_.copy() if isinstance(r_, np.ndarray) else r_
         if p == "slice":
             st = P_["strides"] or [1] * len(P_["start_indices"])
             sl = tuple(slice(s, l, k) for s, l, k in zip(P_["start_indices"], P_["limit_indices"], st))
